@@ -111,10 +111,7 @@ inductive Exc
 inductive Outcome (α : Type)
   | ok (v : α)
   | exc (e : Exc)
-  deriving Repr
-
-instance [DecidableEq α] : DecidableEq (Outcome α) := fun a b => by
-  cases a <;> cases b <;> simp <;> exact inferInstance
+  deriving DecidableEq, Repr
 
 /-- `wrap_exceptions` for a process that is not a zombie: `alive` = `/proc/<pid>/stat` exists. -/
 def wrapExc (alive : Bool) : Exc → Exc
